@@ -116,14 +116,14 @@ func OpenStore(ctx context.Context, primaryType string, dataPath, indexPath stri
 			// Otherwise the record is stale, or was never indexed, and
 			// updating would make a key (possibly another one that shares
 			// the stored prefix) read old or foreign data.
-			curBlk, found, err := idx.Get(indexKey)
+			updated, err := idx.UpdateIf(indexKey, oldBlk, newBlk)
 			if err != nil {
 				return err
 			}
-			if !found || curBlk != oldBlk {
+			if !updated {
 				return errors.New("index does not name the relocated record")
 			}
-			return idx.Update(indexKey, newBlk)
+			return nil
 		})
 	}
 
